@@ -30,6 +30,7 @@ ASSUMPTIONS = [
 DECIDING = ['bp.agent:Agent.recv_bundle', 'bp.agent:Agent._do_rx_step', 'bp.util:BundleContainer.bundle_ident',
             'bp.app.admin:Administrative._rx_route', 'bp.agent:Agent._do_fwd']
 REQUIRED_OBS = ['stack_identities_checked', 'receives', 'repeats_ignored', 'own_source_ignored', 'first_match_decisions', 'delivered', 'forwarded', 'no_route']
+RULE = RULE + " Whole-stack runs (vf.stack): three hosts X-Y-Z, each a real BP agent bound through bp/cla.py and the in-process bus to real UDPCL/TCPCL agents over the simulated network (datagrams reordered and duplicated, BP and UDPCL MTUs, 2-14 bundles with report requests per scenario); judged per node, conditional on what the node's adaptor popped and what the agent handed to the adaptor's sender; the stack_* counters say what was compared."
 
 NODE = 'dtn://me/'
 DESTS = ['dtn://a/x', 'dtn://a/xy', 'dtn://a/y', 'dtn://a/', 'dtn://b/svc', 'dtn://b/svc2', 'dtn://c/q', 'ipn:5.1', 'ipn:5.10', 'ipn:50.1',
